@@ -28,6 +28,7 @@ from pde.tools.plotting import PlotReference, plot_on_axes
 from pde.trackers.base import InfoDict
 
 from .droplets import SphericalDroplet, droplet_from_data
+from .tools.spherical import grid_distance
 from .emulsions import Emulsion, EmulsionTimeCourse
 
 _logger = logging.getLogger(__name__)
@@ -575,7 +576,7 @@ class DropletTrackList(list):
                     if grid is None:
                         metric: str | Callable = "euclidean"
                     else:
-                        metric = functools.partial(grid.distance, coords="cartesian")
+                        metric = functools.partial(grid_distance, grid)
                     points_prev = [track.last.position for track in tracks_alive]
                     points_now = [droplet.position for droplet in emulsion]
                     dists = distance.cdist(points_prev, points_now, metric=metric)
